@@ -4,6 +4,7 @@ from tools.vlib import *
 from checks import brainlib
 
 THEOREMS = ["C03_brain_prob", "C03_brain_center", "C03_brain_defined", "C03_brain_prob_unconditional_refuted", "C03_table_ok", "C03_unfaithful_elements"]
+THEOREMS_B = ["C03_pattern_exact"]
 EVALS = ["bids_where (fun c => negb (b_tie f_same c)) cases", "bids_where (fun c => negb (b_tie f_tol12 c)) cases",
          "map (fun c => N.of_nat (c03_code c)) cases", "map (fun c => N.of_nat (c03_single_code c)) cases",
          "bids_where b_nontrivial cases"]
@@ -28,7 +29,7 @@ def classify(head, r, known):
 
 
 def run(run, args, prop="C03"):
-    n = 110 if run.tier == "quick" else 1500
+    n = (110 if run.tier == "quick" else 1500) * run.scale
     brainlib.prepare(run)
     rc, out, err, dt = run_harness(["brain", "c03", run.seed, n], timeout=1200)
     if rc != 0:
@@ -75,6 +76,8 @@ def run(run, args, prop="C03"):
                "%d bitwise differences, %d beyond 1e-12" % (len(res[0]), len(res[1])))
     run.oblige("specification holds on every implementation output outside the listed known findings", not fails, "")
     broken = standard_proof_obligations(run, prop, THEOREMS) if THEOREMS else []
+    if prop == "C03":
+        broken += standard_proof_obligations(run, "C03b", THEOREMS_B)
     for k in sorted(knowns):
         print("KNOWN-FINDING: property=%s %s %s" % (prop, k, known[k]))
     if fails:
